@@ -881,7 +881,7 @@ class Tab:
             return None
         i = f.insts[o[1]]
         if i.op == "load":
-            base, path = ir.field_path(self.m, f, i.ops[0])
+            base, path = ir.field_path(f.module, f, i.ops[0])
             if base == ("a", 0) and len(path) == 1 and path[0][0] == "f" and path[0][1] == "CoordIJK" and path[0][2] in ("i", "j", "k"):
                 k = "ijk".index(path[0][2])
                 return tuple(1 if x == k else 0 for x in range(3)) + (0,)
@@ -907,22 +907,28 @@ class Tab:
         """the aperture-7 parent kernels invert the child kernels: the linear forms _upAp7(r)[Checked] round (from the IR) times the constant
         vectors of _downAp7(r) give 7 * identity in IJ coordinates, and the scale constant is 1/7"""
         n = nbad = 0
+        # read the kernels with their helpers inlined (a kernel written through ijkToIj()/_setIJK() has the same linear form)
+        try:
+            from . import props as _props
+            mi = _props.module(self.cfg, "inl", ["_upAp7", "_upAp7Checked", "_upAp7r", "_upAp7rChecked"])
+        except Exception:
+            mi = self.m
         for up, down in (("_upAp7", "_downAp7"), ("_upAp7Checked", "_downAp7"), ("_upAp7r", "_downAp7r"), ("_upAp7rChecked", "_downAp7r")):
-            f = self.m.fn(up)
+            f = mi.fn(up)
             vecs = tables.kernel_vectors(self.m, self.T, down)
             rows = {}
             for st in f.all_insts():
                 if st.op != "store":
                     continue
-                base, path = ir.field_path(self.m, f, st.ops[1])
-                if base != ("a", 0) or len(path) != 1 or path[0][2] not in ("i", "j"):
+                base, path = ir.field_path(f.module, f, st.ops[1])
+                if base != ("a", 0) or len(path) != 1 or path[0][0] != "f" or path[0][2] not in ("i", "j"):
                     continue
                 v = st.ops[0]
                 chain = []
                 while v[0] == "i" and f.insts[v[1]].op in ("trunc", "fptosi", "sext"):
                     v = f.insts[v[1]].ops[0]
                 if v[0] != "i" or f.insts[v[1]].op != "call" or f.insts[v[1]].callee not in ("lround", "llround", "lrint"):
-                    raise AnalysisBroken("%s: component %s is not a rounded value" % (up, path[0][2]))
+                    continue        # stores of the inlined normalisation
                 fm = f.insts[v[1]].ops[0]
                 fm = f.insts[fm[1]] if fm[0] == "i" else None
                 if fm is None or fm.op not in ("fmul", "fdiv"):
